@@ -233,7 +233,7 @@ func init() {
 				t.Violate("silently-accepted", key, "strict mode accepts a text that is not JavaScript: "+src, map[string]any{"corrupted": src, "acorn": ref[0].Err, "v8": ref[0].V8})
 				t.Distinct(src)
 			}},
-			{Name: "random", Quick: 1500, Thorough: 12000, Run: func(t *fw.T) {
+			{Name: "random", Quick: 4000, Thorough: 20000, Run: func(t *fw.T) {
 				r := t.Rand()
 				g := gen.NewSyn(r, gen.SynOpts{ExprDepth: 2 + r.IntN(3), StmtDepth: 1 + r.IntN(3), MaxStmts: 1 + r.IntN(4), EscStr: true})
 				prog := g.Program()
